@@ -219,9 +219,12 @@ def run_circuit(c):
     # piquasso refuses passive gates below cutoff 3 (finding 9 of DESIGN section 5, not this property)
     cutoff = max(3, photons + c.get("extra_cutoff", 1))
     rec["d"], rec["cutoff"] = d, cutoff
+    import time as _time
+    _t0 = _time.time()
     try:
         sim = pq.PureFockSimulator(d=d, config=pq.Config(cutoff=cutoff))
         res = sim.execute(prog, shots=None)
+        rec["t_exec"] = round(_time.time() - _t0, 3)
     except Exception as e:  # noqa
         rec["error"] = "execute:" + exc_kind(e) + ":" + str(e)[:200]
         return rec
